@@ -126,7 +126,7 @@ static void gen_prog(FDP& f, Prog& p) {
   }
   else for (size_t i = 0; i < nb; i++) { std::string t = gen_sct(f, g, 0); if (sig.size() + t.size() > 200) break; sig += t; p.body.push_back(gen_value_of(f, g, t)); }
   for (auto& v : p.body) { if (has_h(v)) p.has_h = true; }
-  for (size_t i = 0; i < p.body.size(); i++) p.api.push_back((int)pick(f, 4));
+  for (size_t i = 0; i < p.body.size(); i++) p.api.push_back((int)pick(f, 5));   // 0 elements, 1 one fixed block, 2 append_args, 3 abandon+retry, 4 mixed elements/blocks
 }
 
 static DBusMessage* build(FDP& f, Prog& p) {
@@ -187,7 +187,7 @@ static DBusMessage* build(FDP& f, Prog& p) {
     int api = p.api[i];
     if (api == 2 && append_args_ok(v)) { ok = append_args_one(m, v); dbus_message_iter_init_append(m, &it); }
     else if (api == 3) ok = append_with_abandon(&it, v);
-    else ok = lib_append(&it, v, api == 1);
+    else ok = lib_append(&it, v, api == 1 ? 1 : api == 4 ? 2 : 0);
     p.desc += " api" + std::to_string(api);
     if (!ok) { dbus_message_unref(m); return nullptr; }
   }
